@@ -313,11 +313,16 @@ func (g *gen) randomPrefix(steps int) {
 // ---- the synchronous suffix ----
 
 func (g *gen) syncSuffix(maxFires int, byzKeepsGoing bool) {
+	g.syncSuffixRounds(maxFires, byzKeepsGoing, 14)
+}
+
+// syncSuffixRounds: as syncSuffix, giving up after `rounds` rounds past the synchrony point
+func (g *gen) syncSuffixRounds(maxFires int, byzKeepsGoing bool, rounds int) {
 	g.do("sync")
 	start := g.maxRound()
 	for f := 0; f < maxFires; f++ {
 		g.do("closure")
-		if g.allDone() || g.maxRound() > start+14 || g.maxRound() >= maxRounds-4 {
+		if g.allDone() || g.maxRound() > start+rounds || g.maxRound() >= maxRounds-4 {
 			break
 		}
 		if byzKeepsGoing && g.r.Intn(4) == 0 {
@@ -876,6 +881,88 @@ func genEquivPrecommitPastClaim(r *rand.Rand) core.Case {
 	}
 	g.syncSuffix(80, false)
 	return g.finish("equivocated-precommit-past-claim")
+}
+
+// a lock that outlives its releasing polka: X locks b0 in round 0 and is then cut off; Y and Z go on,
+// lock b1 on the polka of round 1 and move to round 2. X is handed the complete polka of round 1
+// while it is still in round 0 (the unlock rule `LockedRound < vote.Round <= cs.Round` does not
+// fire), then the prevotes of round 2, on which it skips to round 2 — no prevote of round 1 will ever
+// be added at X again, so the rule is never re-evaluated.
+func genStaleLock(r *rand.Rand) core.Case {
+	w := getWorld([]int64{1, 1, 1, 1}, nil, 0)
+	p0, p1 := w.proposers[0], w.proposers[1]
+	byz := -1
+	for _, v := range r.Perm(4) {
+		if v != p0 && v != p1 {
+			byz = v
+			break
+		}
+	}
+	g := newGen(r, w, complement(4, []int{byz}))
+	pos := func(v int) int {
+		for i, c := range g.nt.correct {
+			if c == v {
+				return i
+			}
+		}
+		panic("not a correct node")
+	}
+	X, Y := pos(p0), pos(p1)
+	Z := 3 - X - Y
+	for i := range g.nt.nodes {
+		g.fire(i)
+	}
+	b0, b1 := p0, p1
+	// round 0 as in genSplitLocks: only X sees the polka for b0
+	g.dlMatch(Y, func(m *msg) bool { return (m.kind == "prop" && m.r == 0) || (m.kind == "block" && m.b == b0) })
+	g.fireIf(Z, cstypes.RoundStepPropose)
+	kB := g.byzVote("pv", 0, b0, byz)
+	kN := g.byzVote("pv", 0, -1, byz)
+	g.dl(X, kB)
+	g.dl(Y, kN)
+	g.dl(Z, kN)
+	correctOf := func(t string, rr int) func(*msg) bool {
+		return func(m *msg) bool { return m.kind == "vote" && m.t == t && m.r == rr && m.by != byz }
+	}
+	for _, i := range []int{X, Y, Z} {
+		g.dlMatch(i, correctOf("pv", 0))
+	}
+	g.fireIf(Y, cstypes.RoundStepPrevoteWait)
+	g.fireIf(Z, cstypes.RoundStepPrevoteWait)
+	g.byzVote("pc", 0, -1, byz)
+	// X is cut off from here on
+	for _, i := range []int{Y, Z} {
+		g.dlMatch(i, isVote("pc", 0))
+		g.fireIf(i, cstypes.RoundStepPrecommitWait)
+	}
+	// round 1: Y proposes b1; Y and Z see the polka (with the faulty validator's help) and lock b1
+	g.dlMatch(Z, func(m *msg) bool { return (m.kind == "prop" && m.r == 1) || (m.kind == "block" && m.b == b1) })
+	g.byzVote("pv", 1, b1, byz)
+	for _, i := range []int{Y, Z} {
+		g.dlMatch(i, isVote("pv", 1))
+	}
+	g.byzVote("pc", 1, -1, byz)
+	for _, i := range []int{Y, Z} {
+		g.dlMatch(i, isVote("pc", 1))
+		g.fireIf(i, cstypes.RoundStepPrecommitWait)
+	}
+	// round 2: Y and Z prevote (their locked block) at the propose timeout, the faulty validator nil
+	for _, i := range []int{Y, Z} {
+		g.dlMatch(i, func(m *msg) bool { return m.kind == "prop" && m.r == 2 })
+		g.fireIf(i, cstypes.RoundStepPropose)
+	}
+	g.byzVote("pv", 2, -1, byz)
+	// X: first the whole polka of round 1 (still in round 0), then the prevotes of round 2
+	g.dlMatch(X, isVote("pv", 1))
+	if rs := g.nt.nodes[X].node.RS(); g.nt.nodes[X].live() && rs.Round == 0 && rs.LockedRound == 0 {
+		stat("polka-recorded-before-its-round-is-reached")
+	}
+	g.dlMatch(X, isVote("pv", 2))
+	if rs := g.nt.nodes[X].node.RS(); g.nt.nodes[X].live() && rs.Round == 2 && rs.LockedRound == 0 {
+		stat("stale-lock-after-round-skip")
+	}
+	g.syncSuffixRounds(80, false, 6)
+	return g.finish("stale-lock")
 }
 
 // skewed validator set (reached through validator updates): most of the power walks through the
